@@ -155,12 +155,11 @@ reg("C04",
     )
 for op, nm in ((0, "add_prod"), (1, "sub_prod"), (2, "add_one"), (3, "sub_one")):
     desc = ["+= (P32E2,P32E2)", "-= (P32E2,P32E2)", "+= P32E2", "-= P32E2"][op]
-    for limb in range(8):
-        if op >= 2 and limb not in (2, 3, 4, 5, 6):
-            continue  # a single posit (scale in [-120, 120]) only reaches limbs 2..6
-        reg("C04", H("c04_q32_step_%s_l%d" % (nm, limb), "c04::q32::step", gen="%d, %d" % (op, limb), unwind=34, covers=2, timeout=1800, mem_gb=8,
-                     tier="quick" if op in (0, 2) else "thorough", funcs=["Q32E2 " + desc], space_bits=570, slice_of="Q32E2 %s over every state and operand" % desc,
-                     bound="every 512-bit quire state; operands whose term has its leading bit in limb %d of the accumulator%s; result pattern != NaR" % (limb, " (and every zero / NaR operand)" if limb == (2 if op >= 2 else 0) else "")))
+    reg("C04", H("c04_q32_step_" + nm, "c04::q32::step", gen="%d, 32" % op, unwind=34, covers=2, timeout=3600, mem_gb=10, tier="quick" if op == 2 else "thorough",
+                 funcs=["Q32E2 " + desc], space_bits=576, bound="every 512-bit quire state, every operand (pair); result pattern != NaR"))
+    if op < 2:
+        reg("C04", H("c04_q32_step_%s_f4" % nm, "c04::q32::step", gen="%d, 4" % op, unwind=34, covers=2, timeout=1800, mem_gb=10, tier="quick" if op == 0 else "thorough",
+                     funcs=["Q32E2 " + desc], space_bits=548, bound="every 512-bit quire state; operands with <= 4 significant fraction bits each (every regime, exponent, sign); result pattern != NaR"))
 
 # ------------------------------------------------------------------ C12
 reg("C12",
